@@ -64,14 +64,6 @@ def Settled (t : Step) (st : St) : Prop :=
   | .checkout => (∃ bo, st.dirStates t.info.path = some (.co t.info.scms (some (.mk t.info.sig (vids t.deps))) bo)) ∧
       st.inputs t.info.path = some (resultsOf st t.deps)
 
-theorem ivid_agree {p : Path} {st st' : St} (ha : AgreeOff p st st') (i : Info) (ds : List Step)
-    (hacyc : ∀ d ∈ ds, d.path ≠ p) : ivid st' i ds = ivid st i ds := by
-  unfold ivid
-  congr 1
-  apply List.map_congr_left
-  intro d hd
-  rw [(ha d.path (hacyc d hd)).2.2.2.2]
-
 /-- `Settled` only looks at the step's own path and the paths of its inputs -/
 theorem settled_frame {p : Path} {st st' : St} (ha : AgreeOff p st st') (t : Step) (hp : t.path ≠ p)
     (hin : ∀ d ∈ t.pre ++ t.deps, d.path ≠ p) (h : Settled t st) : Settled t st' := by
